@@ -18,5 +18,10 @@ for f in sorted(glob.glob(os.path.join(ROOT, "seeded", "*", "meta.json"))):
         kinds = []
         for v in c.get("violations", [])[:1]:
             kinds.append("no-failing-input-found" if v.rstrip().endswith("no-failing-input-found") else "concrete replay")
-        res = ("CAUGHT (%s, %s tier, %ss)" % (", ".join(kinds) or "?", c.get("tier"), c.get("wall_s"))) if m.get("detected") else "MISSED (exit %s)" % c.get("rc")
+        res = ("CAUGHT (%s, %s tier, %ss)" % (", ".join(kinds) or "?", c.get("tier"), c.get("wall_s"))) if m.get("detected") else "missed by its own check (exit %s)" % c.get("rc")
+    others = [k[len("detected_by_"):] for k in m if k.startswith("detected_by_") and m[k]]
+    if others:
+        res += "; CAUGHT by the check of " + ", ".join(others)
+    elif chk and not m.get("detected"):
+        res = "MISSED — " + res
     print("| %s | %s | %s | %s | %s | %s |" % (m.get("id"), m.get("property"), s, n, "yes" if m.get("confirmed") else "NO", res))
